@@ -149,3 +149,14 @@ pub fn compile_context_for_run(
 ) -> Result<Value, String> {
     crate::session::verif_compile_context_for_run(store, event_log, snapshot_dir, run, run_session_id)
 }
+
+/// The real application router together with the engine behind it (so a harness can reach the
+/// engine's continuity store — e.g. to subscribe in-process — while driving the real handlers).
+pub fn build_router_and_engine(
+    data_dir: PathBuf,
+    workspace_root: PathBuf,
+    openresponses: Option<OpenResponsesConfig>,
+    allow_pty_tasks: bool,
+) -> (axum::Router, std::sync::Arc<crate::SessionEngine>) {
+    crate::server::verif_build_app_and_engine(data_dir, workspace_root, openresponses, allow_pty_tasks)
+}
